@@ -1,0 +1,25 @@
+//go:build verif
+
+package pseudonymization
+
+// Read-only views of unexported constants for the verification harness (add-only, never built
+// into release binaries).
+
+// VerifCharset is the alphabet of random string tokens.
+func VerifCharset() string { return charset }
+
+// VerifGenericTLDs are the TLDs used for long e-mail tokens (in addition to the country ones).
+func VerifGenericTLDs() []string { return append([]string{}, genericTLDs...) }
+
+// VerifCcTLDs are the TLDs used for short e-mail tokens.
+func VerifCcTLDs() []string { return append([]string{}, ccTLDs...) }
+
+// VerifDataIDDelim is the delimiter hashed around the data in generateDataID.
+func VerifDataIDDelim() []byte { return append([]byte{}, dataIDDelim...) }
+
+// VerifDataGenerationLoopLimit is the bound of the regenerate-on-collision loop.
+func VerifDataGenerationLoopLimit() int { return defaultDataGenerationLoopLimit }
+
+// VerifHashKeyPrefix / VerifTokenKeyPrefix are the prefixes of the two storage key spaces.
+func VerifHashKeyPrefix() []byte  { return (&pseudoanonymizer{}).generateKeyForHash(nil) }
+func VerifTokenKeyPrefix() []byte { return (&pseudoanonymizer{}).generateKeyForToken(nil) }
